@@ -698,6 +698,13 @@ func (x *Ctx) c02Init(views map[string]*StreamView) {
 			}
 			return best
 		}
+		firstServedW := -1 // write index of the first round in which the stream's playlist was served
+		for _, r := range h.Rounds {
+			if so := r.Streams[stream]; so != nil && so.PL != nil && so.PL.Media != nil && so.PL.Media.HasMap {
+				firstServedW = r.WriteIdx
+				break
+			}
+		}
 		for _, r := range h.Rounds {
 			so := r.Streams[stream]
 			if so == nil || so.PL == nil || so.PL.Media == nil || !so.PL.Media.HasMap {
@@ -711,23 +718,36 @@ func (x *Ctx) c02Init(views map[string]*StreamView) {
 				}
 			}
 			want := ts.ParamSets[0]
+			early := false
 			if lastCh != nil {
-				// consuming RA unit: first RA at or after the change
-				ustar := -1
-				for ui := lastCh.at; ui < len(exp); ui++ {
-					if exp[ui].RA {
-						ustar = ui
-						break
+				// listedBy: the segment that starts at the RA unit consuming change ch is listed at round n
+				listedBy := func(ch *change, n int) bool {
+					for ui := ch.at; ui < len(exp); ui++ {
+						if exp[ui].RA {
+							if exp[ui].W > r.WriteIdx {
+								return false // change still pending
+							}
+							fr, listed := segStartRound[exp[ui].Idx]
+							return listed && fr <= n
+						}
 					}
+					return false
 				}
-				if ustar < 0 || exp[ustar].W > r.WriteIdx {
-					continue // change still pending
+				if listedBy(lastCh, r.N) {
+					want = lastCh.params
+				} else {
+					// the first segment with the new parameters is not listed yet: everything listed was
+					// encoded with the previous ones, and the init (same URI) must still carry them -
+					// provided the previous change is itself settled
+					// (the init is generated from the parameters current at *that* moment: the first init,
+					// and one regenerated for an earlier change after a later one was written, can be ahead
+					// of their segments. The clause is applied to the plain situation only: a single change
+					// so far, written when the stream's playlist and init were already being served.)
+					if lastCh != &changes[0] || firstServedW < 0 || exp[lastCh.at].W <= firstServedW {
+						continue
+					}
+					early = true
 				}
-				fr, listed := segStartRound[exp[ustar].Idx]
-				if !listed || fr > r.N {
-					continue // first segment with the new parameters not listed yet
-				}
-				want = lastCh.params
 			}
 			ii := initAt(r.N)
 			if ii == nil || ii.Err != "" || len(ii.Tracks) != 1 {
@@ -744,6 +764,11 @@ func (x *Ctx) c02Init(views map[string]*StreamView) {
 			eq := paramsEqual(ts.Kind, got, want)
 			if ts.Kind == media.AV1 {
 				eq = bytes.Equal(media.NormAV1([][]byte{got.Seq}), media.NormAV1([][]byte{want.Seq}))
+			}
+			if !eq && early {
+				x.Stats.Add("C02.init_early_checks_failed", 1)
+				x.fail("init-early", "init-early/"+ts.Kind.String(), "round %d: init of %s already carries parameters of a change whose first segment is not listed yet (every listed segment was encoded with the previous ones)", r.N, stream)
+				break
 			}
 			if !eq {
 				x.fail("init-stale", "init-stale/"+ts.Kind.String(), "round %d: init of %s does not carry the parameters of the listed segments (last change at unit %v)", r.N, stream, lastCh != nil)
